@@ -81,7 +81,7 @@ func eval(c Case) *pbt.Fail {
 
 // loopy builds inputs aimed at the loops of the parsers.
 func loopy(rt *rapid.T) (string, []byte, string) {
-	switch rapid.IntRange(0, 8).Draw(rt, "loopy") {
+	switch rapid.IntRange(0, 9).Draw(rt, "loopy") {
 	case 0: // JPEG: EOI followed by markers, marker bytes at SOI depth 0
 		b := []byte{0xFF, 0xD8}
 		for i, n := 0, rapid.IntRange(0, 3).Draw(rt, "segs"); i < n; i++ {
@@ -122,6 +122,22 @@ func loopy(rt *rapid.T) (string, []byte, string) {
 			}
 		}
 		return "tiff", b, "ifd-cycle"
+	case 9: // JPEG markers of every kind whose length field sits at the ends of its 16-bit range
+		b := []byte{0xFF, 0xD8}
+		for i, n := 0, rapid.IntRange(0, 2).Draw(rt, "pre"); i < n; i++ {
+			b = append(b, gen.SegBytes(gen.OtherSeg(rt, "pre"))...)
+		}
+		for i, n := 0, rapid.IntRange(1, 3).Draw(rt, "edges"); i < n; i++ {
+			m := rapid.SampledFrom([]byte{0xC0, 0xC1, 0xC2, 0xC3, 0xC5, 0xCF, 0xC4, 0xDB, 0xDD, 0xE0, 0xE1, 0xE2, 0xED, 0xEF, 0xFE, 0xF0, 0x01}).Draw(rt, "marker")
+			l := rapid.SampledFrom([]int{0, 1, 2, 3, 4, 0xFFFC, 0xFFFD, 0xFFFE, 0xFFFF}).Draw(rt, "length")
+			b = append(b, 0xFF, m, byte(l>>8), byte(l))
+			if m == 0xE1 && rapid.Bool().Draw(rt, "exifprefix") {
+				b = append(b, gen.ExifPrefix...)
+			}
+			b = append(b, bytes.Repeat([]byte{0xFF, m, byte(l >> 8), byte(l), 0x11, 0x22}, rapid.SampledFrom([]int{12, 700, 11000}).Draw(rt, "fill"))...)
+		}
+		b = append(b, gen.SegBytes(gen.DQT())...)
+		return "jpeg", append(b, make([]byte, 80)...), "jpeg-length-edges"
 	case 7: // XMP whose attribute / element values run up to and beyond the reader's look-ahead window, whole or cut mid-value
 		val := func(label string) []byte {
 			n := rapid.SampledFrom([]int{100, 127, 128, 253, 255, 256, 511, 512, 1023, 1024, 1025, 1500, 1537, 1538, 1539, 1600, 2048, 3100, 4097, 9000}).Draw(rt, label+".len") + rapid.IntRange(-3, 3).Draw(rt, label+".d")
@@ -279,7 +295,7 @@ func init() { pbt.Register(chk) }
 func TestProp(t *testing.T) {
 	defer rec.MustWrite()
 	rec.Rule("inputs: C01's corpus/encoder output with hostile edits and truncations, plus loop-targeting classes (EOI followed by markers, marker bytes at SOI depth 0, " +
-		"iinf/iloc boxes with zero/tiny sizes, TIFF scans over partial signatures, XMP with long white-space runs and unterminated tokens, XMP attribute/element values up to and beyond the look-ahead window (whole or cut mid-value), " +
+		"JPEG markers of every kind with length fields 0..4 and 0xFFFC..0xFFFF, iinf/iloc boxes with zero/tiny sizes, TIFF scans over partial signatures, XMP with long white-space runs and unterminated tokens, XMP attribute/element values up to and beyond the look-ahead window (whole or cut mid-value), " +
 		"60-84 pending out-of-line tags in every container with the stream ending right after the directory tables, IFD cycles, chains of 128-entry directories); " +
 		"oracle: bytes requested <= 4*len+64KiB, Read calls <= len+1024, return within 10s+50us/byte (a single expiry is re-run alone with twice the budget; only a second expiry is a hang). " +
 		"non-trivial = input carries a loop-bearing construct and is >= 32 bytes; distinct by (entry, input)")
